@@ -531,6 +531,12 @@ def apply_op(hist, op, idx, **kw):
         hist.update_source(op["store"])
     elif k == "delete":
         _delete_store(hist, op["store"])
+    elif k == "dryrun":
+        # a dry run of the objects of this process (built now if the process is new); no oracle looks at it here - it
+        # must simply be without consequence for everything that follows
+        op2 = dict(op, op="run", cfg=dict(op.get("cfg") or {}, dry_run=True), reuse=True)
+        op2.pop("faults", None)
+        run_op(hist, op2, idx, **kw)
     elif k == "advance":
         hist.disk.now += op["seconds"]
     elif k == "bump":
